@@ -53,6 +53,9 @@ type vStep struct {
 	pre   *vPre
 }
 
+// commands that dedicated runs single out (parameter "cmdname")
+var vNamedCmds = []string{"", "MODE", "NICK", "PING", "JOIN", "QUIT", "KILL", "PART"}
+
 var vRoleNames = []string{"unregistered", "client", "oper", "services"}
 
 // vDoStep builds the template and applies one IRCFromClient entry the way
@@ -71,6 +74,9 @@ func vDoStep() *vStep {
 	if ci < len(names) {
 		cmd = names[ci]
 	}
+	if k := verifParam("cmdname", 0); k > 0 && cmd != vNamedCmds[k] {
+		verifAssume(false) // runs that single out one command name it, so that table changes do not shift it
+	}
 	K := verifParam("K", 3)
 	n := verifCase(K + 1)
 	verifCaseLabel("role=" + vRoleNames[role] + " cmd=" + cmd + " nparams=" + string(rune('0'+n)))
@@ -88,6 +94,11 @@ func vDoStep() *vStep {
 		params[j] = vStr(t.L)
 		// bound: comma-separated lists have at most two items
 		verifAssume(strings.Count(params[j], ",") <= verifParam("commas", 1))
+	}
+	if cmd == "MODE" && n >= 2 && verifParam("modeprefix", 0) == 1 {
+		// compound mode strings: the unprivileged ban-list query "+b" followed by one more mode change
+		tail := vStr(2)
+		params[1] = "+b" + tail
 	}
 	if (cmd == "MODE" || cmd == "SVSMODE") && n >= 2 {
 		// bound: at most this many characters in a mode string
